@@ -175,6 +175,27 @@ def checkTok (env : Env) (res : KVs) (key : Str) (toks : List Tok) : Option Stri
       let gotS := match got with | some g => hexStr g | none => "none"
       some s!"sig=C12/{area} key={hexStr key} want={hexStr want} got={gotS}"
 
+def isInfix (pat : Str) : Str → Bool
+  | [] => pat.isEmpty
+  | c :: r => pat.isPrefixOf (c :: r) || isInfix pat r
+
+/-- the search oracle for "every reference is replaced, provider values included": when resolution succeeded and no
+escape can be involved, no complete reference to an existing provider key is left in any string of the result -/
+def checkLeftover (s : St) (res : Val) : Option String :=
+  let env := s.env
+  let inputs := s.srcs.flatMap valStrings
+    ++ s.provs.flatMap (fun e => valStrings e.2.raw ++ (match e.2.strRep with | some r => [r] | none => []))
+  if !inputs.all dollarsOpen then none else
+  match (valStrings res).findSome? (fun str => (leftoverRef env str).map (fun k => (k, str))) with
+  | none => none
+  | some ((sc, nm), str) =>
+    let self := '$' :: '{' :: sc ++ ':' :: nm ++ ['}']
+    let cyc := match (env.prov sc nm).bind Retrieved.asString with
+      | some v => isInfix self v
+      | none => false
+    let sig := if cyc then "C12/cycle/returned-as-fixed-point" else "C12/expand/known-reference-left-in-output"
+    some s!"sig={sig} ref={hexStr sc}:{hexStr nm} in={hexStr str}"
+
 def handler : Handler St where
   init := {}
   onOp := fun s toks =>
@@ -229,9 +250,12 @@ def handler : Handler St where
       let env := s.env
       match s.implRes with
       | some (.map res) =>
-        match s.toks.findSome? (fun kt => checkTok env res kt.1 kt.2) with
-        | some d => [s!"prop tokens=FAIL {d}"]
-        | none => ["prop tokens=ok"]
+        (match s.toks.findSome? (fun kt => checkTok env res kt.1 kt.2) with
+         | some d => [s!"prop tokens=FAIL {d}"]
+         | none => ["prop tokens=ok"])
+        ++ (match checkLeftover s (.map res) with
+            | some d => [s!"prop leftover=FAIL {d}"]
+            | none => ["prop leftover=ok"])
       | _ =>
         -- the implementation reported an error: a well-formed token value must not make resolution fail
         if s.implErr && !s.toks.isEmpty && s.toks.all (fun kt => tokOK env kt.2 && numRefs kt.2 < env.fuel)
